@@ -1,7 +1,7 @@
 ----------------------------- MODULE Trace_Qlog -----------------------------
 (* impl -> spec: the qlog stream (and application summary) of vh-sim runs under every exporter configuration *)
 EXTENDS Qlog, TLC, Json, IOUtils
-VARIABLES l, sums
+VARIABLES l, sums, flag
 Rec_ == ndJsonDeserialize(IOEnv.TRACE)
 NE == Len(Rec_)
 e == Rec_[l]
@@ -14,9 +14,12 @@ TPanic == Ev("panic") /\ q' = Fail(q, "panic while logging / inside the stack (C
 TFinal == Ev("final") /\ q' = EndOfRun(q) /\ sums' = sums
 TOther == l <= NE /\ e.ev \in {"dgram", "dlv", "undeliverable", "app"} /\ l' = l + 1 /\ q' = q /\ sums' = sums
 
-TraceInit == l = 1 /\ q = QInit("", "none", FALSE) /\ sums = <<>>
-TraceNext == TReset \/ TQ \/ TSum \/ TPanic \/ TFinal \/ TOther
+TraceInit == l = 1 /\ q = QInit("", "none", FALSE) /\ sums = <<>> /\ flag = FALSE
+TraceNext == (TReset \/ TQ \/ TSum \/ TPanic \/ TFinal \/ TOther)
+             /\ flag' = (q.ok /\ ~q'.ok)
 ContractHolds == q.ok \/ PrintT(<<"CONTRACT", q.why>>) = FALSE
+\* reported once, at the step that broke the contract; validation of the following runs continues
+SoftContract == ~flag \/ PrintT(<<"SOFT_VIOLATION", "Contract", l, q.why>>)
 TraceAccepted ==
     LET d == TLCGet("stats").diameter IN
     IF d - 1 = NE THEN TRUE
